@@ -260,15 +260,10 @@ Definition join (ps : list domain) (cs : list conn) (nm : string) : res domain :
       let dim := d_dim p0 in
       do st <- join_loop ps (by_indices cs) dim cs [] [];
       let '(ifs, joined) := st in
-      (* Union(.. [b for p in patches for b in p.boundary]) : p.boundary must be a Union *)
-      if existsb (fun p => Nat.ltb (length (d_boundary p)) 2) ps then Err EType else
-      let allf := canonF (flat_map d_boundary ps) in
-      (* .complement(Union(..boundaries)) *)
-      let bnd := match joined with
-                 | [] => allf
-                 | _ => canonF (filter (fun f => negb (mem face_pyeqb f (canonF joined))) allf)
-                 end in
-      if Nat.eqb (length bnd) 1 then Err EAttr else         (* Boundary has no as_tuple *)
+      (* members = lambda u: [] if u is None else (list(u.args) if isinstance(u, Union) else [u])
+         joined     = members(Union(..boundaries))
+         boundaries = members(Union(.. [b for p in patches for b in members(p.boundary) if b not in joined])) *)
+      let bnd := canonF (filter (fun f => negb (mem face_pyeqb f (canonF joined))) (flat_map d_boundary ps)) in
       let ints := canonP (flat_map d_interiors ps) in
       if Nat.ltb (length ints) 2 then Err EType else         (* `for e in interiors` on a bare interior *)
       if forallb is_mapped ints then
